@@ -37,6 +37,7 @@ type c06Case struct {
 	ListSlice bool        `json:"listslice"`
 	IO        string      `json:"io"`    // "" (NewDecoder on the bytes) | "reader" | "overwrite"
 	Chunk     int         `json:"chunk"` // selects the chunk sizes of the reader
+	TZ        int         `json:"tz"`    // time.Local for this case: a fixed zone that many seconds east of UTC
 	Q         [][2]string `json:"q"`
 }
 
@@ -238,6 +239,8 @@ func oracle(fn, arg string) (res string) {
 	return "!"
 }
 
+var curTZ int
+
 func runCase(line []byte, out *json.Encoder) error {
 	var c c06Case
 	if err := json.Unmarshal(line, &c); err != nil {
@@ -245,6 +248,10 @@ func runCase(line []byte, out *json.Encoder) error {
 	}
 	hvlib.Begin(c.ID)
 	obs := c06Obs{ID: c.ID}
+	if c.TZ != curTZ {
+		curTZ = c.TZ
+		time.Local = time.FixedZone("Local", c.TZ)
+	}
 	if c.Op == "orc" {
 		for _, q := range c.Q {
 			fn, _ := hex.DecodeString(q[0])
